@@ -113,6 +113,38 @@ def run : Handler := fun req => do
           if tsegs.map shape != asegs.map shape then return verdict false [] s!"route pattern {ax} does not have the shape of template {path}"
         | _ => pure ()
       | _ => pure ()
+    -- every parameter of the merged (path-item + operation) set reaches the handler: extractor present and
+    -- one field per parameter in the location's struct
+    for d in opsJ do
+      let method := (strOf d "method").toUpper
+      let path := strOf d "path"
+      match handlerOf.lookup s!"{method} {path}" with
+      | some h =>
+        -- path-level parameters belong to the PATH ITEM: those declared through any operation of the same path apply here too
+        let own := (Oas3.Driver.Client.paramsOf (fieldD d "params" (Json.arr #[]))).toOption.getD []
+        let shared := (opsJ.filter fun o => strOf o "path" == path).flatMap fun o => ((Oas3.Driver.Client.paramsOf (fieldD o "params" (Json.arr #[]))).toOption.getD []).filter (·.pathLevel)
+        let sharedU := shared.foldl (fun acc q => if acc.any (fun x => x.loc == q.loc && x.name == q.name) then acc else acc ++ [q]) []
+        let ps := sharedU ++ own.filter (!·.pathLevel)
+        let cps := collectParams ps
+        let decl := pathDecl path.toList ps
+        let fnJ := fns.find? fun f => strOf f "kind" == "fn" && strOf f "name" == h
+        let inputs := match fnJ with | some f => ((arr (fieldD f "inputs" (Json.arr #[]))).toOption.getD []).map (strOf · "ty") | none => []
+        let hasTy (p : String) : Bool := inputs.any fun t => (t.splitOn p).length > 1
+        let reqTy := match traitMethods.find? (fun m => strOf m "name" == h) with
+          | some m => (((arr (fieldD m "inputs" (Json.arr #[]))).toOption.getD []).filterMap fun i => if strOf i "pat" == "request" then some (strOf i "ty") else none).head?.getD ""
+          | none => ""
+        let nFields (sfx : String) : Nat := match (fieldD impl "items" Json.null).getObjVal? ("struct:" ++ reqTy ++ sfx) with
+          | .ok st => ((arr (fieldD st "fields" (Json.arr #[]))).toOption.getD []).length
+          | .error _ => 0
+        let nq := (cps.filter (·.loc == .query)).length
+        let nh := (cps.filter (·.loc == .header)).length
+        if hasTy "Path<" != !decl.isEmpty then return verdict false [] s!"{method} {path}: Path extractor present/absent mismatch"
+        if hasTy "Query<" != (nq > 0) then return verdict false [] s!"{method} {path}: Query extractor present/absent mismatch"
+        if hasTy "HeaderMap" != (nh > 0) then return verdict false [] s!"{method} {path}: header extraction present/absent mismatch"
+        if nFields "Query" != nq then return verdict false [] s!"{method} {path}: {nFields "Query"} query fields for {nq} declared query parameters"
+        if nFields "Header" != nh then return verdict false [] s!"{method} {path}: {nFields "Header"} header fields for {nh} declared header parameters"
+        if nFields "Path" != decl.length then return verdict false [] s!"{method} {path}: {nFields "Path"} path fields for {decl.length} template/declared path parameters"
+      | none => pure ()
     -- no two routes may claim the same (pattern shape, method) or conflicting patterns
     let keys := routesI.map fun r => match r.splitOn " " with | [ax, rm, _, _] => (String.ofList (shape ax.toList), rm) | _ => ("", "")
     if keys.eraseDups.length != keys.length then return verdict false (if hasTrace then ["KnownTraceDuplicated"] else []) "two operations share one (route pattern, method)"
